@@ -260,6 +260,18 @@ def r11_3(ctx: Ctx, rule="R11.3"):
             _r11_3_rest(ctx, rule, f, molidx)
             return
     n = 0
+    # the match test with its temporaries written out (`end = start + n` ... `list[start:end]`); a test on the pattern that is
+    # still not the reference window is a spelling this rule does not read
+    from ..pat import expand_single_defs as _xsd113
+    EW = norm(_xsd113(f.node, ast.parse(window, mode="eval").body, skip=(pattern,)))      # the window with every temporary written out
+    for n_ in walk_no_nested(l):
+        if isinstance(n_, ast.If):
+            tx_ = norm(_xsd113(f.node, n_.test, skip=(pattern,)))
+            if ".all()" in tx_ and pattern in tx_ and EW not in tx_:
+                ctx.ob(rule, f, n_, True, "the match test `%s` is not `(list[start:start + len(pattern)] == pattern).all()`; record/consume "
+                       "pairing not decided on this tree" % norm(n_.test)[:80], undecided=True, node=n_)
+                _r11_3_rest(ctx, rule, f, molidx)
+                return
     for p in enum_paths(l.body):
         matched = None
         newblk_cond = None
@@ -267,7 +279,7 @@ def r11_3(ctx: Ctx, rule="R11.3"):
             tt, neg = t, False
             while isinstance(tt, ast.UnaryOp) and isinstance(tt.op, ast.Not):
                 tt, neg = tt.operand, not neg
-            txt = norm(tt)
+            txt = norm(_xsd113(f.node, tt, skip=(pattern,))).replace(EW, window)
             if window in txt and pattern in txt and ".all()" in txt:
                 eq = "==" in txt and "!=" not in txt
                 matched = (o != neg) if eq else None
@@ -288,10 +300,19 @@ def r11_3(ctx: Ctx, rule="R11.3"):
         bad_inc = [s for s in st if isinstance(s, ast.AugAssign) and norm(s.target).startswith("self._molecules_ordered[") and s not in rec_inc]
         if bad_inc:
             ctx.ob(rule, f, bad_inc[0], False, "the count of the current block is incremented by one per instance -- `%s`" % norm(bad_inc[0]), node=bad_inc[0])
-        consume = [s for s in st if isinstance(s, ast.Assign) and norm(s.targets[0]) == window and const_int(s.value) == -1]
+        consume = [s for s in st if isinstance(s, ast.Assign) and const_int(s.value) == -1
+                   and (norm(s.targets[0]) == window or norm(_xsd113(f.node, s.targets[0], skip=(pattern,))) == EW)]
         adv = [s for s in st if isinstance(s, ast.AugAssign) and norm(s.target) == start and isinstance(s.op, ast.Add)]
+        adv_by_assign = False
+        # `start = end` with `end = start + len(pattern)` bound earlier in the same pass is the same advance
+        for s in st:
+            if isinstance(s, ast.Assign) and norm(s.targets[0]) == start and not adv:
+                ex_ = norm(_xsd113(f.node, s.value, skip=(pattern,)))
+                if ex_ in (norm(_xsd113(f.node, ast.parse("%s + %s" % (start, plen), mode="eval").body, skip=(pattern,))),):
+                    adv = [s]
+                    adv_by_assign = True
         if matched:
-            ok = len(rec_new) + len(rec_inc) == 1 and len(consume) == 1 and len(adv) == 1 and norm(adv[0].value) == plen
+            ok = len(rec_new) + len(rec_inc) == 1 and len(consume) == 1 and len(adv) == 1 and (adv_by_assign or norm(adv[0].value) == plen)
             # a new block is opened exactly when the previous residue did not belong to a run of this species
             if newblk_cond is not None:
                 ok = ok and ((newblk_cond and len(rec_new) == 1) or (not newblk_cond and len(rec_inc) == 1))
@@ -331,11 +352,31 @@ def _r11_3_rest(ctx: Ctx, rule: str, f: Func, molidx: str):
         mi = pfind(add.node, "%s = len(self.different_molecules)" % b_["V_mi"])
         ap = pfind(add.node, "self.different_molecules.append(V_m)")
         okm = bool(mi) and bool(ap) and mi[0][0].lineno < ap[0][0].lineno < cs[0][0].lineno
-    ctx.ob(rule, add, cs[0][0] if cs else "scanner call", okc,
-           "the scan starts at the first matching run and labels instances with the index of the molecule just appended",
-           node=cs[0][0] if cs else add.node)
-    ctx.ob(rule, add, "molecule index", okm,
-           "the kind index is the position the new molecule takes in different_molecules", node=add.node)
+    und_ = False
+    if not cs:
+        und_ = True
+    elif not okc:
+        # the start comes from another method of the class handed (pattern, topology): the validator under another name
+        alt = pfind(add.node, "%s = self.V_meth(%s, %s)" % (cs[0][1]["V_si"], cs[0][1]["E_pat"], top_p)) if cs else []
+        und_ = bool(alt)
+    if und_:
+        ctx.ob(rule, add, cs[0][0] if cs else "scanner call", True, "the call of the scanner (or the search that gives its start) is not "
+               "written as in the reference tree; where the scan starts is not decided on this tree", undecided=True, node=cs[0][0] if cs else add.node)
+    else:
+        ctx.ob(rule, add, cs[0][0] if cs else "scanner call", okc,
+               "the scan starts at the first matching run and labels instances with the index of the molecule just appended",
+               node=cs[0][0] if cs else add.node)
+    if not okm and cs and not pfind(add.node, "%s = len(self.different_molecules)" % cs[0][1]["V_mi"]) and \
+            norm(ast.parse(cs[0][1]["V_mi"], mode="eval").body) not in ("len(self.different_molecules) - 1",) and not cs[0][1]["V_mi"].isidentifier():
+        und_m = True
+    else:
+        und_m = not cs
+    if und_m:
+        ctx.ob(rule, add, "molecule index", True, "the kind index handed to the scanner is not a local bound to len(self.different_molecules) "
+               "before the append; not decided on this tree", undecided=True, node=add.node)
+    else:
+        ctx.ob(rule, add, "molecule index", okm,
+               "the kind index is the position the new molecule takes in different_molecules", node=add.node)
 
 
 def r11_6(ctx: Ctx, rule="R11.6"):
